@@ -27,6 +27,8 @@ CHECKS = {
         note="Bounded constants; router / sender steps are urgent in the model (they have no gate in the code; schedules in which they "
              "lag are equivalent up to batch composition and are sampled by the free-running traces); the watermark ticker period is "
              "set through Tune(sourcerunner.watermarkTickMs) (1 h in replays, 1-3 ms in free runs); one KeyedEvent per record; "
-             "SourceComplete is unreachable in the runner (ReadSourceChannel.C is never closed) and therefore not modelled beyond "
-             "end of input."),
+             "known finding Dev_NoFlushAtEndOfInput: SourceComplete is unreachable in the runner (ReadSourceChannel.C is never "
+             "closed), so with no batch time-out the tail of a bounded source is never delivered; Pipeline.tla carries the intended "
+             "design (Dev_NoFlushAtEOI=FALSE: Flush, final watermark, SourceComplete, operators.flush()) which TLC verifies, and the "
+             "code as it is (TRUE) which reproduces the finding; the check classifies exactly that anomaly as known."),
 }
